@@ -457,7 +457,7 @@ class History:
         rec = self.ctx.rec
         kinds = ["iadd_incompatible", "iadd_other_dim", "iadd_nonhist", "iadd_array", "imul_negative", "imul_hist", "idiv_hist", "isub_more",
                  "fill_n_weight_shape", "fill_n_cols", "set_dtype_invalid", "set_dtype_lossy", "fill_bad_weight", "merge_bad_amount",
-                 "mul_array", "rdiv", "array_after_free_block", "idiv_zero", "normalize_empty_inplace", "fill_weight_square_overflow", "isub_more_in_bins_only"]
+                 "mul_array", "rdiv", "array_after_free_block", "idiv_zero", "normalize_empty_inplace", "fill_weight_square_overflow", "isub_more_in_bins_only", "isub_missed_from_untracked"]
         if h.ndim >= 2:
             kinds += ["projection_bad", "select_bad", "fill_wrong_dim"]
             if h.is_adaptive() and all(len(np.asarray(b)) > 0 for b in h.bins):
@@ -513,6 +513,24 @@ class History:
                     o.underflow = float(h.underflow) / 2
                     o.overflow = float(h.overflow) / 2
                     h -= o
+                elif k == "isub_missed_from_untracked":
+                    # the minuend does not track its missed values (its counters are zero), the subtrahend missed something: the
+                    # difference would hold a negative missed weight - refused like any other negative content
+                    if h.ndim != 1 or h.is_adaptive() or len(np.asarray(h.bins)) == 0:
+                        return
+                    a_ = h.copy()
+                    a_.keep_missed = False
+                    a_.underflow, a_.overflow = 0, 0
+                    self.add(a_)
+                    o = a_.copy()
+                    o.keep_missed = True
+                    o = o * 0
+                    o.overflow = 2
+                    if rng.random() < 0.5:
+                        a_ -= o
+                    else:
+                        r_ = a_ - o
+                        self.add(r_)
                 elif k == "fill_weight_square_overflow":
                     # a weight that fits the content type while its square does not: refused as a whole or entered as a whole
                     must = False
